@@ -183,39 +183,6 @@ func (s *Sim) Learn(st *Step) {
 		}
 	}
 
-	// --- password changes
-	for _, ch := range rec.Diff() {
-		if ch.Field != "Password" {
-			continue
-		}
-		ac := s.AcctByPID(ch.PID)
-		if ac == nil {
-			continue
-		}
-		np := ""
-		switch a.Kind {
-		case "recover_end":
-			np = a.Secret2
-		case "admin_updatepw":
-			np = a.Secret
-		}
-		if ac.Pw != "" {
-			ac.OldPw = append(ac.OldPw, ac.Pw)
-		}
-		ac.Pw = np
-		// a completed change revokes the account's cookies; one that errored out midway (e.g. the
-		// token purge itself failed) leaves them in limbo: nothing is demanded of them
-		revoked := Dead
-		if rec.HandlerErr != "" || rec.AdminErr != "" || rec.Panic != "" {
-			revoked = Limbo
-		}
-		for _, c := range s.Cookies {
-			if c.PID == ac.PID && (c.State == Live || c.State == Limbo) {
-				c.State = revoked
-			}
-		}
-	}
-
 	// --- remember cookies
 	if s.RememberActive() && rec.Kind == "http" {
 		if v := rec.CookiesIn["rm"]; v != "" && rec.SessIn["uid"] == "" {
@@ -256,6 +223,40 @@ func (s *Sim) Learn(st *Step) {
 			i++
 			if s.Cookies[e.Value] == nil {
 				s.Cookies[e.Value] = &CookieRec{Val: e.Value, PID: pid, Issued: st.I, Asked: a.opt("rm") == "true" || a.opt("asked") == "true"}
+			}
+		}
+	}
+
+	// --- password changes (after the cookies of this request are known: a purge in the same
+	// request also removes a token minted earlier in it)
+	for _, ch := range rec.Diff() {
+		if ch.Field != "Password" {
+			continue
+		}
+		ac := s.AcctByPID(ch.PID)
+		if ac == nil {
+			continue
+		}
+		np := ""
+		switch a.Kind {
+		case "recover_end":
+			np = a.Secret2
+		case "admin_updatepw":
+			np = a.Secret
+		}
+		if ac.Pw != "" {
+			ac.OldPw = append(ac.OldPw, ac.Pw)
+		}
+		ac.Pw = np
+		// a completed change revokes the account's cookies; one that errored out midway (e.g. the
+		// token purge itself failed) leaves them in limbo: nothing is demanded of them
+		revoked := Dead
+		if rec.HandlerErr != "" || rec.AdminErr != "" || rec.Panic != "" {
+			revoked = Limbo
+		}
+		for _, c := range s.Cookies {
+			if c.PID == ac.PID && (c.State == Live || c.State == Limbo) {
+				c.State = revoked
 			}
 		}
 	}
